@@ -94,8 +94,8 @@ func runLeaseScript(kv chord.KVProvider, backend string, sc leaseScript) (r leas
 	r.backend = backend
 	key := []byte(fmt.Sprintf("lease-%d", sc.Case))
 	var model kvmodel.Lease
-	issued := []uint64{}                // every token this store returned, oldest first
-	own := make([]uint64, sc.Holders)   // each holder's latest token
+	issued := []uint64{}              // every token this store returned, oldest first
+	own := make([]uint64, sc.Holders) // each holder's latest token
 	pick := func(st leaseStep) (uint64, bool) {
 		switch st.Tok {
 		case "own":
